@@ -257,6 +257,11 @@ SUBS = {'explore': explore, 'aggregators': aggregators, 'other_process': other_p
 TIMEOUTS = {'explore': 3000, 'aggregators': 1200, 'other_process': 2400}
 
 
+# sub-spaces re-executed under other interpreter configurations (mc.core.CONFIGS): {configuration: {sub-space: stride}}
+# quick tier: every stride-th planned case, thorough tier: all planned cases
+CONFIG_PASSES = {'x64': {'explore': 3, 'aggregators': 3}, 'rbg': {'aggregators': 3}}
+
+
 def plan(ctx):
   th = ctx.tier == 'thorough'
   depth = 3 if th else 2
